@@ -12,4 +12,5 @@ if [ ! -d /tmp/sv$n ]; then git -C /repo worktree add -q --detach /tmp/sv$n HEAD
 git -C /tmp/sv$n reset --hard -q
 git -C /tmp/sv$n checkout -q --detach "$(git -C /repo rev-parse HEAD)"
 mkdir -p /tmp/vcopy$n/work
+git -C /verif rev-parse --short HEAD > /tmp/vcopy$n/COMMIT
 echo "export VERIF_TARGET_REPO=/tmp/sv$n VERIF_SCRATCH=/tmp/sv$n VERIF_SEEDED_OUT=/verif/seeded"
